@@ -300,11 +300,18 @@ func ParseQuery(inputQuery string) (Query, error) {
 	p := NewQueryParser(stream)
 
 	errorListener := &customErrorListener{}
+	lexer.RemoveErrorListeners()
+	lexer.AddErrorListener(errorListener)
 	p.RemoveErrorListeners()
 	p.AddErrorListener(errorListener)
 
 	listener := NewCustomQueryListener()
 	tree := p.Query()
+	// the start rule has no EOF: anything left over is not part of the query
+	if next := stream.LT(1); len(errorListener.errors) == 0 && next.GetTokenType() != antlr.TokenEOF {
+		errorListener.errors = append(errorListener.errors,
+			fmt.Sprintf("line %d:%d extraneous input '%s' expecting <EOF>", next.GetLine(), next.GetColumn(), next.GetText()))
+	}
 
 	if len(errorListener.errors) > 0 {
 		return Query{}, fmt.Errorf("\n%s", strings.Join(errorListener.errors, "\n"))
